@@ -166,6 +166,15 @@ Theorem C05_should_run_is_the_sources :
 Proof. exact should_run_tie. Qed.
 Print Assumptions C05_should_run_is_the_sources.
 
+(* ... and the flag validation of `cond run` (cli/run.py validate_args): the model rejects exactly the
+   combinations the TRANSLATED function rejects, with the error class of the same name, testing in
+   the same order *)
+Theorem C05_validate_args_is_the_sources : forall f m,
+  option_map flag_error_name (validate_args f m) =
+  gen_validate_args (f_this_commit f) (is_some' (f_at_least f)) (f_again f) (uses_git m) (is_some' (current_commit m)).
+Proof. exact validate_args_tie. Qed.
+Print Assumptions C05_validate_args_is_the_sources.
+
 (* non-vacuity: a history with a merge (1 <- 2, 1 <- 3, {2,3} <- 4 = HEAD, 1 <- 5 off the
    ancestry); versions at 2 and 3 are equally far from HEAD (distance 2 each), the newer one
    wins; the newest version of all (at 5) and the commit-less one are not chosen *)
